@@ -639,6 +639,44 @@ MarshalerFamily ==
   \cup UNION {{e, GPtr(e), GPtr(GPtr(e)), GSlice(<<GPtr(e), e>>), GMap("k" :> GPtr(e)),
                GStruct("", <<Fld("A", e), Fld("B", GPtr(e))>>)} : e \in EmbShapes}
 
+\* ---- pointers to interface variables, and finite shapes that look cyclic --
+\* The element of a *interface{} is the only place where reflection meets
+\* Kind Interface, so it gets a family of its own: *interface{} holding every
+\* kind of value, **interface{}, an interface holding a pointer to an
+\* interface, []*interface{}, map values and struct fields of type
+\* *interface{}, interfaces holding containers that hold pointers to
+\* interfaces, typed nils inside the interface.  Then finite linked lists
+\* (a struct with a pointer to its own type, nil at the end) and SHARED
+\* pointers (share: the harness builds ONE pointer and uses it in every
+\* place; conversion is by value, so sharing must be invisible).
+GShared(x) == [g |-> "ptr", nil |-> FALSE, share |-> TRUE, v |-> x]
+Node(val, next) == GStruct("Node", <<Fld("Val", val), Fld("Next", next)>>)
+NilNode == GNilPtr("struct:Node")
+IfaceFamily ==
+       {GPtr(GIface(x)) : x \in Pointable(Leaves)}
+  \cup UNION {{GPtr(GPtr(GIface(x))), GPtr(GIface(GPtr(GIface(x)))), GPtr(GIface(GPtr(x))),
+               GPtr(GPtr(GIface(GPtr(GPtr(GIface(x)))))),
+               GSliceT(<<GPtr(GIface(x)), GPtr(GNilIface)>>), GSlice(<<GPtr(GIface(x)), x>>),
+               GMapT("k" :> GPtr(GIface(x))), GMap("k" :> GPtr(GPtr(GIface(x)))),
+               GStruct("", <<Fld("P", GPtr(GIface(x))), Fld("Q", GPtr(GNilIface))>>),
+               GPtr(GStruct("", <<Fld("P", GPtr(GIface(x)))>>)),
+               GPtr(GIface(GSlice(<<GPtr(GIface(x))>>))), GPtr(GIface(GMap("k" :> x))),
+               GPtr(GIface(GStruct("", <<Fld("A", x)>>))),
+               GStruct("AbU", <<Fld("A", GPtr(GIface(x))), Fld("b", GInt("int", 5)), Fld("URL", GNil), Fld("ID", GPtr(GIface(GPtr(GIface(x)))))>>)}
+              : x \in Pointable(R0(2))}
+  \cup {GPtr(GIface(x)) : x \in {GNilPtr("int"), GNilSlice("bool"), GNilMap("string"), GEmptySlice("bool"),
+                                 GSlice(<<>>), GNilPtr("struct:AInt"), GNilPtr("marshaler:idurl"), GPtr(GNilPtr("int"))}}
+CyclicLooking ==
+  LET n1 == Node(GInt("int", 1), NilNode)
+      n2 == Node(GStr("a"), GPtr(Node(GStr("b"), NilNode)))
+      n3 == Node(GInt("int", 1), GPtr(Node(GInt("int", 2), GPtr(Node(GPtr(GIface(GInt("int", 3))), NilNode)))))
+      ps == {GShared(GInt("int", 7)), GShared(GIface(GStr("s"))), GShared(n2), GShared(GSlice(<<GInt("int", 1)>>)),
+             GShared(GPtr(GIface(GBool(TRUE))))} IN
+  {n1, GPtr(n1), n2, GPtr(n2), n3, GPtr(n3), GSlice(<<GPtr(n2), GPtr(n3)>>), GPtr(GIface(GPtr(n3)))}
+  \cup UNION {{GSlice(<<p, p>>), GSliceT(<<p, p, p>>), GMap(("a" :> p) @@ ("b" :> p)),
+               GStruct("", <<Fld("A", p), Fld("B", p)>>), GSlice(<<p, GSlice(<<p>>), GMap("k" :> p)>>),
+               Node(p, GPtr(Node(p, NilNode)))} : p \in ps}
+
 \* ---- conversion histories -------------------------------------------------
 \* Conversion must be a function of the value alone: converting g after any
 \* other conversions in the same process yields what converting g alone
@@ -707,7 +745,7 @@ CacheAfter(g, o, cache) ==
     [] g.g = "slice" /\ Len(g.v) = 1 -> CacheAfter(g.v[1], o, cache)
     [] OTHER -> cache
 
-Pool(size) == Leaves \cup G1(size) \cup G2(size) \cup MarshalerFamily \cup HistValues
+Pool(size) == Leaves \cup G1(size) \cup G2(size) \cup MarshalerFamily \cup HistValues \cup IfaceFamily \cup CyclicLooking
 
 \* the same pool cut into parts (one TLC process each)
 PoolPart(size, part) ==
@@ -716,7 +754,7 @@ PoolPart(size, part) ==
     [] part = 2 -> {GSlice(<<x>>) : x \in G1(size)} \cup {GSliceT(<<x>>) : x \in G1(size)}
     [] part = 3 -> {GMap("k" :> x) : x \in G1(size)} \cup {GMapT("Key" :> x) : x \in G1(size)}
     [] part = 4 -> ContB(R1(size))
-    [] part = 5 -> MarshalerFamily \cup HistValues
+    [] part = 5 -> MarshalerFamily \cup HistValues \cup IfaceFamily \cup CyclicLooking
 Parts == 0..5
 
 \* Go values whose conversions feed the pair laws (depth <= 1; arrays left
